@@ -65,9 +65,9 @@ theorem compileWhile_kids {n prog} (h : compileWhile n = .ok prog) : ∀ c ∈ p
   simp [Instr.kids, or_imp, forall_and]
   refine ⟨?_, ?_, ?_⟩ <;> sub_close
 
-theorem importAliases_kids (loc start : Pos) (l : List Ast) {prog} (h : importAliases loc start l = .ok prog) :
+theorem importAliases_kids (loc start : Pos) (l es : List Ast) {prog} (h : importAliases loc start l es = .ok prog) :
     progKids prog = [] := by
-  induction l generalizing prog with
+  induction l generalizing prog es with
   | nil => simp only [importAliases, pure_ok_iff] at h; subst h; rfl
   | cons a r ih =>
     simp only [importAliases, bind_ok_iff, pure_ok_iff] at h
@@ -76,17 +76,17 @@ theorem importAliases_kids (loc start : Pos) (l : List Ast) {prog} (h : importAl
       simp only [importAlias, bind_ok_iff] at ht
       obtain ⟨asname, _, aname, _, ht⟩ := ht
       split at ht <;> (simp only [pure_ok_iff] at ht; subst ht; simp [Instr.kids])
-    simp [hthis, ih hr]
+    simp [hthis, ih _ hr]
 
 theorem compileImport_kids {n prog} (h : compileImport n = .ok prog) : ∀ c ∈ progKids prog, Sub c n := by
   simp only [compileImport, bind_ok_iff] at h
-  obtain ⟨loc, _, start, _, names, _, h⟩ := h
-  rw [importAliases_kids _ _ _ h]
+  obtain ⟨loc, _, start, _, names, _, ends, _, h⟩ := h
+  rw [importAliases_kids _ _ _ _ h]
   intro c hc; cases hc
 
-theorem importFromAliases_kids (loc start : Pos) (mod : String) (l : List Ast) {prog}
-    (h : importFromAliases loc start mod l = .ok prog) : progKids prog = [] := by
-  induction l generalizing prog with
+theorem importFromAliases_kids (loc start : Pos) (mod : String) (l es : List Ast) {prog}
+    (h : importFromAliases loc start mod l es = .ok prog) : progKids prog = [] := by
+  induction l generalizing prog es with
   | nil => simp only [importFromAliases, pure_ok_iff] at h; subst h; rfl
   | cons a r ih =>
     simp only [importFromAliases, bind_ok_iff, pure_ok_iff] at h
@@ -95,17 +95,17 @@ theorem importFromAliases_kids (loc start : Pos) (mod : String) (l : List Ast) {
       simp only [importFromAlias, bind_ok_iff] at ht
       obtain ⟨asname, _, aname, _, ht⟩ := ht
       split at ht <;> (simp only [pure_ok_iff] at ht; subst ht; simp [Instr.kids])
-    simp [hthis, ih hr]
+    simp [hthis, ih _ hr]
 
 theorem compileImportFrom_kids {n prog} (h : compileImportFrom n = .ok prog) : ∀ c ∈ progKids prog, Sub c n := by
   simp only [compileImportFrom, bind_ok_iff] at h
-  obtain ⟨loc, _, start, _, names, _, h⟩ := h
+  obtain ⟨loc, _, start, _, names, _, ends, _, h⟩ := h
   have : progKids prog = [] := by
     split at h
     · simp only [pure_ok_iff] at h; subst h; rfl
     · simp only [bind_ok_iff] at h
       obtain ⟨_, _, _, _, h⟩ := h
-      exact importFromAliases_kids _ _ _ _ h
+      exact importFromAliases_kids _ _ _ _ _ h
   rw [this]
   intro c hc; cases hc
 
